@@ -213,3 +213,51 @@ package dns
 //@ extern strconv.ParseInt
 //@   ensures ret1 == nil ==> len(s) > 0
 //@   pure
+
+// library functions that only read the data they are handed (trusted).  A library function WITHOUT a
+// contract is taken to possibly write through every pointer, slice and map argument.
+//@ extern fmt.Sprintf
+//@   pure
+//@ extern (net.IP).String
+//@   pure
+//@ extern (net.IP).Equal
+//@   pure
+//@ extern strings.Join
+//@   pure
+//@ extern bytes.Equal
+//@   pure
+//@ extern bytes.Compare
+//@   pure
+//@ extern path.Join
+//@   pure
+//@ extern path/filepath.Join
+//@   pure
+//@ extern crypto/rsa.VerifyPKCS1v15
+//@   pure
+//@ extern crypto/ecdsa.Verify
+//@   pure
+//@ extern crypto/ed25519.Verify
+//@   pure
+//@ extern (*encoding/base64.Encoding).DecodeString
+//@   pure
+//@   fresh
+//@ extern (*strings.Builder).Len
+//@   ensures ret0 >= 0
+//@   pure
+//@ extern (*strings.Builder).String
+//@   pure
+// a strings.Builder writes only into itself
+//@ extern (*strings.Builder).WriteByte
+//@   modifies H.strings.Builder.addr.v@b H.strings.Builder.buf.cap@b H.strings.Builder.buf.len@b H.strings.Builder.buf.off@b H.strings.Builder.buf.ref@b
+//@ extern (*strings.Builder).WriteString
+//@   modifies H.strings.Builder.addr.v@b H.strings.Builder.buf.cap@b H.strings.Builder.buf.len@b H.strings.Builder.buf.off@b H.strings.Builder.buf.ref@b
+//@ extern (*strings.Builder).Write
+//@   modifies H.strings.Builder.addr.v@b H.strings.Builder.buf.cap@b H.strings.Builder.buf.len@b H.strings.Builder.buf.off@b H.strings.Builder.buf.ref@b
+//@ extern (*strings.Builder).Grow
+//@   modifies H.strings.Builder.addr.v@b H.strings.Builder.buf.cap@b H.strings.Builder.buf.len@b H.strings.Builder.buf.off@b H.strings.Builder.buf.ref@b
+
+// asn1.Unmarshal fills the value it is pointed at and only reads the octets (trusted)
+//@ extern encoding/asn1.Unmarshal
+//@   modifies H.struct_R_Pbig.Int__S_Pbig.Int_.R.v H.struct_R_Pbig.Int__S_Pbig.Int_.S.v
+//@ extern (*math/big.Int).SetBytes
+//@   modifies H.big.Int.abs.cap H.big.Int.abs.len H.big.Int.abs.off H.big.Int.abs.ref H.big.Int.neg.v
